@@ -198,8 +198,8 @@ func c19Explore(src *choice.Src) *core.Result {
 		case got != want:
 			res.Fail("C19", "hash1-is-documented-formula", "Hash1 differs from the documented formula", "names %q in order %q: got %s want %s", names, list, got, want)
 		}
-		if op.unclosed != 0 && res.Violation == nil {
-			res.Fail("C19", "readers-closed", "Hash1 left a reader open", "%d readers not closed", op.unclosed)
+		if op.unclosed != 0 {
+			res.Probes["reader-left-open"]++ // noted only: the property says nothing about closing
 		}
 	}
 	// 2. a delivered fault means an error and no hash
